@@ -378,7 +378,7 @@ def c10(run):
                             "C10", workers=4, threads=8, timeout=7000)
     run.add(tlc, s)
     # the environment replaces the auto-correct file under a live context (damaged / deleted / restored), then re-loading
-    n2 = 4 if run.quick() else 6
+    n2 = 4 if run.quick() else 5
     tlc, s = run_tlc_replay(run, "MC_Fault_damage", "MC_Fault.tla",
                             dict(spec="Spec", constants={"MaxSteps": n2, "Focus": '"damage"'}, invariants=invs),
                             "C10", workers=4, threads=8, timeout=7000)
